@@ -9,8 +9,8 @@ M={
 "C07-w15m2":("ForceRejoinReq encoder accepts RejoinType 1 as an alias of 0 and sends 0; the decoder is unchanged.","RejoinType exactly 1."),
 "C07-w15m3":("(same as C05-w15m4, second agent) DeviceTimeAnsPayload.UnmarshalJSON through float64.","A DeviceTimeAns value that goes through JSON and back with a time beyond 2^53 ns."),
 "C07-w15m4":("ProprietaryMACCommandPayload JSON: written as hex, read base64-first (hex digits are valid base64): an even-length payload reads back as other bytes of another length.","A proprietary payload of even, non-zero length that goes through JSON."),
-"C10-w15m1":("(agent C10-a, first change)","-"),
-"C10-w15m2":("(agent C10-a, second change)","-"),
+"C10-w15m1":("macPayloadMutex and macPayloadRegistry bundled in one macPayloadStore type; the read accessors have VALUE receivers: each call copies the embedded RWMutex and locks the copy, readers are no longer excluded from a registration's map write.","A registration with size > 0 running concurrently with a look-up."),
+"C10-w15m2":("firmwaremanagement DevRebootCountdownReq/Ans decoders accumulate the 24-bit Countdown straight into the field (`p.Countdown |= ...`) without clearing it.","A re-used payload value whose earlier countdown has a bit the new one lacks."),
 "C10-w15m3":("EUI64 / DevAddr / NetID / AES128Key Scan folded into one helper that also takes hex strings - and returns nil for a NULL column, leaving the destination as it was.","A NULL column scanned into a destination that already holds a value (one row struct re-used across rows.Next())."),
 "C10-w15m4":("`omitempty` on the optional members of the frame structs' JSON (FOpts, FPort, FRMPayload, MACCommand.Payload, CFList): a nil part is absent rather than null, so encoding/json no longer resets it in a used destination.","A JSON round trip into a used value whose previous frame had an optional part the current one lacks."),
 "C14-w15m1":("Generic planner: 'never send a LinkADRReq that changes nothing' compares each block's mask with ONE device mask computed as deviceChMask[c%16] (the OR of all the device's blocks).","A plan with more than 16 channels and a differing block whose target mask equals the folded device mask (sub-band shaped sets)."),
